@@ -306,7 +306,7 @@ func init() {
 				d.Do(Ev{"op": "uu.parse", "in": B(in), "rule": rule, "T": T})
 			}
 		}
-		frag := []string{"\x00", "\xff", "\xc3", "\xc3\xa9", "é", "日本語", "\U0001F600", "\xed\xa0\x80", "\xf4\x90\x80\x80", " ", " ", "\ufeff", "-", ".", "+", "v", "0", "9", "M", "i", "{", "}", "\"", "\\", ":", ",", "\u00a0", "\n", "\t", "e", "E", "K", "B"}
+		frag := []string{"\x00", "\xff", "\xc3", "\xc2", "\xe2", "\xe2\x80", "\xf0\x9f", "\xc3\xa9", "é", "日本語", "\U0001F600", "\xed\xa0\x80", "\xf4\x90\x80\x80", " ", " ", "\ufeff", "-", ".", "+", "v", "0", "9", "M", "i", "{", "}", "\"", "\\", ":", ",", "\u00a0", "\n", "\t", "e", "E", "K", "B"}
 		fuzz := func(p pk) []byte {
 			switch d.R.Intn(6) {
 			case 0: // random bytes
@@ -364,6 +364,13 @@ func init() {
 				for _, s := range p.seeds {
 					for r := 0; r < p.rules; r++ {
 						parse(p, []byte(s), r)
+					}
+				}
+				// truncated multi-byte sequences at the very end (a look-ahead must not run past the input)
+				for _, tail := range []string{"\xc2", "\xc3", "\xe2", "\xe2\x80", "\xf0", "\xf0\x9f\x98", "\xa0", "\x80"} {
+					for _, head := range []string{"", "1", "10 ", "1 K", p.seeds[0]} {
+						parse(p, []byte(head+tail), 0)
+						parse(p, []byte(head+tail), p.rules-1)
 					}
 				}
 				// a few rules for the derived variants below (all rules for the plain fills)
